@@ -222,9 +222,12 @@ def molecules_for(libname, tier, seed=0):
         ms += small_molecules(3, ('C', 'O'))
     else:
         ms = CURATED_GAS + small_molecules(4 if tier != 'quick' else 3, ('C', 'O'))
+        if libname == 'PPY':
+            # the scheme with nitrogen and sulfur: heteroaromatic rings (their explicit-hydrogen spelling writes the hetero atom in brackets: [s], [nH], [n])
+            ms = ms + ['c1ccsc1', 'c1ccncc1', 'c1cc[nH]c1', 'Cc1cccs1', 'CSC', 'CCN', 'CS']
     ms = sorted(set(ms))
     if tier == 'quick' and len(ms) > 45:
-        keep = [m for m in ms if m in CURATED_GAS or '[' in m]
+        keep = [m for m in ms if m in CURATED_GAS or '[' in m or 's' in m or 'n' in m or 'S' in m or 'N' in m]
         rest = [m for m in ms if m not in keep]
         ms = sorted(set(keep + rnd.sample(rest, max(0, 45 - len(keep)))))
     return ms
